@@ -7,8 +7,11 @@ import sys
 from vf import dense, gen
 from vf.budget import Budget, pairs_of
 from vf.core import Clause, Property, Violation
-from vf.osk import IS_TM, eff_tau, outcome_values, rate_values
+from vf.osk import IS_TM, eff_tau, observed_or_rate, outcome_values, rate_values
 from vf.props.c04 import big_lobbies
+from vf.league import league_class
+from vf.stateful import machine_factory, replayer
+
 
 EPS = sys.float_info.epsilon
 R = 1e-9
@@ -20,7 +23,7 @@ def check_c07(case, ctx):
     n = len(teams)
     values = outcome_values(n, call)
     tau = eff_tau(cfg, call)
-    res = rate_values(cfg, teams, call, ctx)
+    res = observed_or_rate(case, ctx)
     for lab in gen.game_labels(case):
         ctx.label(lab)
     bud = Budget(kind, teams, values, cfg["beta"], cfg["kappa"], tau)
@@ -61,6 +64,8 @@ def check_c07(case, ctx):
 
 STRAT = gen.games(regimes=["dyadic", "dyadic", "dyadic", "generic", "targeted", "identical", "near_equal", "corner"])
 
+LEAGUE = league_class("C07League", ("balance",), "C07")
+
 PROPERTY = Property(
     pid="C07",
     clauses=[
@@ -70,6 +75,10 @@ PROPERTY = Property(
                rule="two-team games with the standardised gap drawn uniformly from [-10, 10], all three outcomes; non-trivial = a draw"),
         Clause(name="large-lobbies", strategy=big_lobbies(), check=check_c07, quick=400, thorough=8000,
                rule="exploration beyond the stated 2..8 teams: lobbies of 9..40 teams; same oracle"),
+        Clause(name="league-history", kind="stateful", machine=machine_factory(LEAGUE), check=replayer(LEAGUE),
+               quick=320, thorough=6000, steps_quick=30, steps_thorough=120,
+               rule="the same oracle after every game of a league history: 5-12 rating objects on one model, returned or passed-in objects fed "
+                    "back, the returned list rated again, predictions interleaved; non-trivial = >= 8 games with some player in >= 4"),
     ],
     rule="generated games (3/8 in the dyadic regime where sums are exact); oracle: |sum_i D_i/var_i| <= 1e-9 x (magnitude of the summands that must cancel) "
          "+ rounding of forming mu'-mu from the outputs + (TM) 2 kappa/c^2 per tied pair; equal-variance corollary; non-trivial = n >= 3 or a tie; distinct by SHA-1",
